@@ -18,7 +18,7 @@ CFG = dict(
          "assembler goroutine per call), started/stopped through the real SourceControl: blocks, 1-5 requests of different kinds (each answered once, replies = model), more "
          "blocks (progress), Stop - or, one case per quick run, the Abaco packet stream ending by itself; "
          "`timing` = every gate site gated and a seeded scheduler choosing when 1-4 callers, 0-2 Stops, "
-         "blocks and the source's own end happen; `fault` = comment file uncreatable, data-drop file uncreatable while a block is processed, pixel map vs "
+         "blocks and the source's own end happen; `fault` = comment file uncreatable, data-drop file uncreatable while a block is processed, WriteControl START below a base path so long that the run directory / only the experiment-state file cannot be created (then a request, a block, a second START), pixel map vs "
          "channel numbers, Lancero mix requests through the real request consumer (indices, list lengths). Each reply is compared with the Lean request "
          "semantics / validators, the verifPoint trace must be a run of the transition system with every eff.* call inside a closure (or ProcessSegments inside "
          "block processing), every caller must return (watchdog), and a block fed afterwards must be processed. Non-trivial = a request was rejected, arrived "
